@@ -90,10 +90,15 @@ def job_discipline(j, old):
     """What a call-out that re-enters the Starter / Stopper guarantees about an ApplicationJobs j that existed before:
     the job keeps its in-flight list object; commands are only ever removed from the job, or moved from its plan to its
     in-flight list by a re-entrant next() (never added from outside); planned groups that remain are the same list
-    objects under the same sequence number (the plan only shrinks - possibly to a new empty dict: ABORT / STOP);
-    commands that were in flight keep their target and timing data."""
-    return (keeps_list(j, old) and only_removed_or_triggered(j, old) and plan_only_shrinks(j, old)
-            and plan_shrinks_in_order(j, old) and in_flight_untouched(j, old))
+    objects under the same sequence number; the plan only shrinks, in pickup order (re-entrant next()) or entirely
+    (possibly to a new empty dict: ABORT / STOP)."""
+    return keeps_list(j, old) and plan_only_shrinks(j, old) and plan_shrinks_in_order(j, old)
+
+
+def job_discipline_extended(j, old):
+    """additional clauses needed by the (not yet converged) contract of ApplicationJobs.check, see wip_c10_check.txt; NOT
+    part of what the registered proofs assume"""
+    return job_discipline(j, old) and only_removed_or_triggered(j, old) and in_flight_untouched(j, old)
 
 
 def reports_untouched(old):
@@ -126,10 +131,15 @@ def other_command_lists_untouched(old):
 
 def reentrancy_discipline(old):
     return (forall(ApplicationJobs, lambda j: implies(is_alloc(old(j)), keeps_list(j, old)))
-            and forall(ApplicationJobs, lambda j: implies(is_alloc(old(j)), only_removed_or_triggered(j, old)))
             and forall(ApplicationJobs, lambda j: implies(is_alloc(old(j)), plan_only_shrinks(j, old)))
+            and forall(ApplicationJobs, lambda j: implies(is_alloc(old(j)), plan_shrinks_in_order(j, old))))
+
+
+def reentrancy_discipline_extended(old):
+    """see job_discipline_extended: NOT assumed by the registered proofs"""
+    return (reentrancy_discipline(old)
+            and forall(ApplicationJobs, lambda j: implies(is_alloc(old(j)), only_removed_or_triggered(j, old)))
             and forall(ApplicationJobs, lambda j: implies(is_alloc(old(j)), in_flight_untouched(j, old)))
-            and forall(ApplicationJobs, lambda j: implies(is_alloc(old(j)), plan_shrinks_in_order(j, old)))
             and reports_untouched(old) and other_command_lists_untouched(old))
 
 
@@ -139,8 +149,8 @@ class FsmOnProcessStateEvent:
     starter.on_event / stopper.on_event -> Commander.next, i.e. the Commander whose check() / next() is still running
     may be re-entered (and, through Starter.after / Stopper.after, the other Commander too).  Nothing is framed (no
     modifies clause: anything may change).  What is ASSUMED of the re-entered code is reentrancy_discipline:
-    * job_discipline for every ApplicationJobs alive before the call;
-    * reports_untouched; other_command_lists_untouched.
+    job_discipline for every ApplicationJobs alive before the call (the *_extended clauses - reports / in-flight commands /
+    other lists untouched - are written down for the contract of check() but are not assumed by any registered proof).
     NOT assumed: that Commander.current_jobs / planned_jobs of the re-entered Commanders are unchanged - a re-entrant
     Commander.next retires any job that does not look in progress and may trigger the next applications; nor that the
     in-flight list of a job keeps its members (a re-entrant on_event removes completed commands).
